@@ -493,3 +493,10 @@ def oracle(lines, impl):
     if os.environ.get("CV_CALIB"):
         print("CALIB C08", {k: round(v, 5) for k, v in sorted(CALIB.items())})
     return fails
+
+# --- deep theorems (second pass; modules written in their own files, wired here by the lead)
+PROOF_MODULES = PROOF_MODULES + ['Compute.Props.Rounding']
+REQUIRED_THEOREMS = REQUIRED_THEOREMS + ['Cv.Rounding.mean_error', 'Cv.Rounding.mean_error_add_two', 'Cv.Rounding.welfordMean_error', 'Cv.Rounding.iterSum_error']
+_np = list(NOT_PROVED)
+_np[0] = 'floating-point rounding of variance / covariance: decided by the oracle (exact rational reference, condition-number-scaled bound); for both mean algorithms the rounding-error bounds ARE proved in the standard model (Props/Rounding: mean_error gamma_n, welfordMean_error ~ (n/2+6.5) u max|x|)'
+NOT_PROVED = [x for x in _np if x is not None]
